@@ -3,7 +3,7 @@ package main
 import (
 	"fmt"
 	"go/types"
-		"strings"
+	"strings"
 
 	"golang.org/x/tools/go/ssa"
 )
@@ -291,7 +291,18 @@ func (a *Act) contractCall(instr ssa.Instruction, callee *ssa.Function, ct *Cont
 	var qghost []GhostDecl
 	var allAsg []GhostDecl
 	rootGhosts := a.root().ghosts
+	var callerInst map[string]*SExpr
+	if rc := a.root().contract; rc != nil && rc.Insts != nil && a == a.root() {
+		callerInst = rc.Insts[cname]
+	}
 	for _, g := range ct.Ghosts {
+		if ex, ok := callerInst[g.Name]; ok {
+			ce := a.baseEnv(a.cur)
+			blk := a.curBlk
+			ce.resolve = func(name string) (Val, bool) { return a.resolveDom(blk, name, a.cur) }
+			vars[g.Name] = ce.eval(ex)
+			continue
+		}
 		if v, ok := rootGhosts[g.Name]; ok {
 			vars[g.Name] = v
 			if ghostSort(g.Type) == SortAsg {
@@ -319,7 +330,11 @@ func (a *Act) contractCall(instr ssa.Instruction, callee *ssa.Function, ct *Cont
 		for _, g := range gs {
 			s := ghostSort(g.Type)
 			n := vc.fresh("q" + g.Name)
-			e.vars[g.Name] = Val{Sort: s, Term: n}
+			gv := Val{Sort: s, Term: n}
+			if gt := e.lookupType(g.Type); gt != nil {
+				gv.T = gt
+			}
+			e.vars[g.Name] = gv
 			bs = append(bs, fmt.Sprintf("(%s %s)", n, s))
 			if s == SortAsg {
 				marks = append(marks, app("asgmark", n))
@@ -661,7 +676,9 @@ func (a *Act) mapDomComp(mt *types.Map) (string, Sort) {
 	return "MD:" + typeName(mt.Key()) + ":" + typeName(mt.Elem()), arrSort(Sort("(Array " + string(ks) + " Bool)"))
 }
 
-func mapValSort(ks, vs Sort) Sort { return arrSort(Sort("(Array " + string(ks) + " " + string(vs) + ")")) }
+func mapValSort(ks, vs Sort) Sort {
+	return arrSort(Sort("(Array " + string(ks) + " " + string(vs) + ")"))
+}
 
 func (a *Act) mapInit(st *State, mt *types.Map, r string) {
 	dc, ds := a.mapDomComp(mt)
